@@ -22,6 +22,7 @@ META = {
 }
 META["explanation"] += " " + '(TB-casepair, shared with C06) both spellings of the exponent marker are tested together.'
 META["explanation"] += " " + '(PR-expmarker, PR-accumulate: shared with C06) an exponent marker under the cursor is consumed by the exponent scanner; recognised digits are accumulated.'
+META["explanation"] += " " + '(ACC-wrap) a decimal accumulation in a loop bounded only by the end of the input is under a bound on the accumulator itself (the mantissa loops are bounded by a local 19-digit window); one named exception, the unchecked FastStringToNumber.'
 
 U64 = (1 << 64) - 1
 
@@ -217,4 +218,6 @@ def run(ctx):
     rules.append(rule_exponent_marker(ctx, m))
     from rules.common import rule_accumulate
     rules.append(rule_accumulate(ctx, m))
+    from rules.common import rule_accumulator_wrap
+    rules.append(rule_accumulator_wrap(ctx, m))
     return rules
